@@ -34,6 +34,8 @@ type Node struct {
 	Small  map[int8]string   `json:"small"`
 	Bytes  map[uint8]string
 	M      map[string]any
+	Short  string `json:"id"` // two tags that differ only in case: "id" ...
+	Long   string `json:"ID"` // ... and "ID"
 	hidden string
 	secret any
 	Leaf
@@ -52,8 +54,10 @@ type rootT struct {
 	Tagged int `json:"tagged"`
 	hidden string
 	List   []int
-	Sub    subT `json:"sub"`
-	Any    any  `json:"any"`
+	Sub    subT   `json:"sub"`
+	Any    any    `json:"any"`
+	Short  string `json:"id"` // two tags that differ only in case
+	Long   string `json:"ID"`
 }
 
 // VD is a JSON-serialisable description of a Go value.
@@ -242,6 +246,8 @@ func (v VD) node() Node {
 		Title:  v.M["Title"].S,
 		Count:  atoi(v.M["Count"].S),
 		hidden: v.M["hidden"].S,
+		Short:  v.M["Short"].S,
+		Long:   v.M["Long"].S,
 		Leaf:   Leaf{Deep: v.M["Deep"].S, Num: atoi(v.M["Num"].S)},
 	}
 	if a, ok := v.M["Any"]; ok {
